@@ -93,10 +93,12 @@ func Verif_C12_K4_Routing() {
 		}
 	case 3:
 		vnd.Cover("findmissing")
-		sb := digest.NewSetBuilder(3)
+		sb := digest.NewSetBuilder(4)
 		for i := 0; i < 2; i++ {
 			sb.Add(objsA[(oi+1+i)%3].Digest)
 		}
+		// the same blob under two instance names: two different digests, both to be answered
+		sb.Add(dA)
 		sb.Add(dB)
 		set := sb.Build()
 		failing := -1
